@@ -304,4 +304,15 @@ func (s *verifStack) gaugeOthers(b *zzverif.Backend) int64 {
 
 func (s *verifStack) gaugeSum() int64 { return s.gaugeOthers(nil) }
 
+// verifStreamSSE is an OpenAI chat-completion stream cut into one chunk per event (n content deltas).
+func verifStreamSSE(n int) [][]byte {
+	out := make([][]byte, 0, n+2)
+	for i := 0; i < n; i++ {
+		out = append(out, []byte(fmt.Sprintf("data: {\"id\":\"c1\",\"object\":\"chat.completion.chunk\",\"model\":\"m1\",\"choices\":[{\"index\":0,\"delta\":{\"content\":\"w%d \"},\"finish_reason\":null}]}\n\n", i)))
+	}
+	out = append(out, []byte("data: {\"id\":\"c1\",\"object\":\"chat.completion.chunk\",\"model\":\"m1\",\"choices\":[{\"index\":0,\"delta\":{},\"finish_reason\":\"stop\"}]}\n\n"))
+	out = append(out, []byte("data: [DONE]\n\n"))
+	return out
+}
+
 var _ = testing.Short
